@@ -63,7 +63,7 @@ class Ref:
         d = int(t[1])
         a = t[2] if len(t) > 2 else None
         S, V, X, P = self.S, self.V, self.X, self.P
-        if op == "snew" or op == "slit": S[d] = unhex(a)
+        if op in ("snew", "slit", "sset"): S[d] = unhex(a)
         elif op in ("scopy", "sassign"): S[d] = list(S[int(a)])
         elif op in ("sclear", "sdel"): S[d] = []
         elif op == "sappend": S[d] = S[d] + unhex(a)
@@ -79,6 +79,7 @@ class Ref:
         elif op == "vpush":
             v = V[d]
             V[d] = ("l", (v[1] if v[0] == "l" else ()) + (int(a),))
+        elif op == "vsetl": V[d] = ("l", (int(a),))
         elif op == "vswap": V[d], V[int(a)] = V[int(a)], V[d]
         elif op in ("xcopy", "xassign"): X[d] = X[int(a)]
         elif op == "xclear": X[d] = ("n",)
@@ -240,17 +241,17 @@ reference.eq = ref_eq
 # ---- generators -------------------------------------------------------------------------------------
 KINDS = "svxp"
 OPS = {
-    "s": ["snew", "slit", "scopy", "sassign", "sclear", "sappend", "sreserve", "sdel"],
-    "v": ["vcopy", "vassign", "vclear", "vseti", "vsets", "vapp", "vpush", "vswap"],
+    "s": ["snew", "slit", "scopy", "sassign", "sclear", "sappend", "sreserve", "sdel", "sset"],
+    "v": ["vcopy", "vassign", "vclear", "vseti", "vsets", "vapp", "vpush", "vswap", "vsetl"],
     "x": ["xcopy", "xassign", "xclear", "xsets", "xelem"],
     "p": ["pnew", "pcopy", "passign", "pclear", "pswap"],
 }
 W = {
-    "s": [3, 1, 4, 4, 2, 5, 2, 2], "v": [4, 4, 2, 2, 3, 4, 3, 2], "x": [4, 4, 2, 3, 4], "p": [3, 4, 4, 2, 3],
+    "s": [3, 1, 4, 4, 2, 5, 2, 2, 2], "v": [4, 4, 2, 2, 3, 4, 3, 2, 2], "x": [4, 4, 2, 3, 4], "p": [3, 4, 4, 2, 3],
 }
 TWO = {"scopy", "sassign", "vcopy", "vassign", "vswap", "xcopy", "xassign", "pcopy", "passign", "pswap"}
 ONE = {"sclear", "sdel", "vclear", "xclear", "pclear"}
-NUM = {"sreserve", "vseti", "vpush", "pnew"}
+NUM = {"sreserve", "vseti", "vpush", "vsetl", "pnew"}
 
 
 def rbytes(rng, n):
@@ -304,9 +305,9 @@ def gen_history(rng, length):
 
 SMALL = {
     "s": ["snew 0 6162", "slit 0 61", "scopy 1 0", "scopy 0 1", "sassign 1 0", "sassign 0 1", "sassign 0 0", "sclear 0", "sclear 1",
-          "sappend 0 63", "sappend 1 6465", "sreserve 0 8", "sdel 0", "sdel 1"],
+          "sappend 0 63", "sappend 1 6465", "sreserve 0 8", "sdel 0", "sdel 1", "sset 0 67"],
     "v": ["vsets 0 61", "vseti 0 7", "vcopy 1 0", "vassign 1 0", "vassign 0 1", "vassign 0 0", "vclear 0", "vclear 1", "vapp 0 62",
-          "vapp 1 63", "vpush 0 1", "vpush 1 2", "vswap 0 1", "vswap 0 0", "vsets 1 -"],
+          "vapp 1 63", "vpush 0 1", "vpush 1 2", "vswap 0 1", "vswap 0 0", "vsets 1 -", "vsetl 0 3"],
     "x": ["xsets 0 61", "xelem 0 62", "xcopy 1 0", "xassign 1 0", "xassign 0 1", "xassign 0 0", "xclear 0", "xclear 1", "xsets 1 63",
           "xelem 1 64", "xelem 1 -"],
     "p": ["pnew 0 1", "pnew 1 2", "pcopy 1 0", "pcopy 2 0", "passign 1 0", "passign 0 1", "passign 0 0", "pclear 0", "pclear 1",
